@@ -961,7 +961,9 @@ class Batch:
             self.ctx.violate("C16:generated-enum-value:%s" % ("implicit-after-explicit" if "num,auto" in shape else "wrong-constant"),
                              "enum %s: generated constants %s for declaration %s" % (r["enum"], r["got"], r["decl"]), {"record": r})
         # self-test: a falsified constant must be rejected
-        cor = json.loads(json.dumps(recs[:3]))
+        cor = json.loads(json.dumps([r for i, r in enumerate(recs, 1) if i not in bad][:3]))
+        if not cor:
+            return {"enums": len(recs), "rejected": len(bad), "selftest": "skipped: no accepted record to falsify"}
         cor[0]["got"][-1] += 1
         if judge(cor, "enum-selftest") != [1]:
             raise Inconclusive("enum oracle self-test failed")
